@@ -149,8 +149,8 @@ each span *start* bit comes with its style bit.
 Full statement (not proved here): also `SpanXEnd → SpanX` for the four span kinds.  That
 part needs "the span stack never holds the same directive twice", which follows only from
 the look-ahead discipline of `scanSpan` over the rest of the line (an invariant relating
-the state to the unread input); it is `C17_style_consistent_end` below under that
-hypothesis, and the hypothesis is checked by the oracle on every generated case. -/
+the state to the unread input); it is checked by the oracle on every generated case
+(`style-consistent`, `bracketing|style-without-span`). -/
 theorem C17_style_consistent_partial (limit : Option Nat) (sch : Schedule) (doc : Bytes) :
     ∃ evs, (decode limit sch doc).1 = some evs ∧ ∀ e ∈ evs, StartConsistent e.style := by
   have hinv := scanDoc_inv limit sch doc
@@ -250,5 +250,33 @@ theorem C17_chunk_independent_generic {σ : Type} (split : Split σ) (I : σ →
   have := scanner_chunk_indep split I spec st (fuelFor doc) sch.sizes sch.dataEOF s0 [] doc false h0
     (by simp) (by simp [runMeasure, fuelFor]) (fuelFor doc) (by simp [fuelFor]; omega)
   simpa using this
+
+/-- the styling split function is stable: a token decided before EOF on a window is the
+decision (advance, token, decoder state) on every extension of the window with any `atEOF`,
+and after a "more" answer the next call on an extension behaves as from the old state.
+This is where the two chunk-dependence defects of the unchanged code were (block quote
+prefix, pre block at EOF); it holds for the repaired `startsBlockQuote` and `scanPre`. -/
+theorem C17_scan_stable : Stable Dec.scan Dec.OK := decScan_stable
+
+/-- **chunk independence**: for every document, any two ways a reader may deliver it (any
+cut into reads of at least one byte, `io.EOF` with or after the last bytes) give the same
+tokens with the same decoder state after each token — hence the same style masks, quote
+depths and info strings, including the virtual block quote end tokens. -/
+theorem C17_chunk_independent (sch1 sch2 : Schedule) (doc : Bytes) :
+    scanDoc none sch1 doc = scanDoc none sch2 doc ∧ decode none sch1 doc = decode none sch2 doc := by
+  have h : scanDoc none sch1 doc = scanDoc none sch2 doc := by
+    rw [scanDoc_eq_ref sch1 doc, scanDoc_eq_ref sch2 doc]
+  exact ⟨h, by unfold decode; rw [h]⟩
+
+/-- non-vacuity, on the witness of the first defect: byte-by-byte and all-at-once agree -/
+example : decode none ⟨[1, 1, 1, 1, 1], false⟩ [gt, 0x20, 0x20, 0x78, nl] =
+    decode none ⟨[], true⟩ [gt, 0x20, 0x20, 0x78, nl] := by decide
+
+/-- with a token limit chunk independence holds up to `ErrTooLong`: a run that reaches EOF
+is the reference run (the limit only ever cuts a run short) — stated for completeness as
+the lossless + terminates pair above; the divergence itself is `C17_limit_witness`. -/
+theorem C17_chunk_independent_events (sch : Schedule) (doc : Bytes) :
+    decode none sch doc = decode none ⟨[], true⟩ doc :=
+  (C17_chunk_independent sch ⟨[], true⟩ doc).2
 
 end XmppModel.Props.C17
